@@ -36,11 +36,28 @@ pub struct Seed {
     pub events: Vec<(Vec<u8>, Vec<u8>)>,
     pub views: Vec<ViewData>,
     /// records 0 and 2 share the timestamps array of their first animated value
+    #[allow(dead_code)]
     pub share: bool,
     /// animated values without key frames carry a non-default interpolation / global sequence
     #[allow(dead_code)]
     pub keyless_headers: bool,
+    /// shared arrays: (section, record, animated value, kind) re-uses the array that
+    /// (record, animated value, kind) of the same section placed earlier in the file. For
+    /// "events" the animated value index is 0. The member's bytes in `tracks` / `events` must
+    /// equal the first `count` elements of the source's (`make_*` take care of that).
+    pub alias: BTreeMap<(&'static str, usize, usize, u8), (usize, usize, u8)>,
+    /// bytes laid out directly behind the array of (section, record, animated value, kind): a
+    /// member that shares the offset with a larger count covers them too
+    pub tail: BTreeMap<(&'static str, usize, usize, u8), Vec<u8>>,
+    /// ribbon / particle emitter records carry non-empty plain sub-arrays (texture and material
+    /// index lists, geometry model file name, tile coordinates): (section, record) -> payloads
+    pub subarrays: BTreeMap<(&'static str, usize), Vec<Vec<u8>>>,
 }
+
+/// kinds of array inside one animated value
+pub const RANGES: u8 = 0;
+pub const TIMES: u8 = 1;
+pub const VALUES: u8 = 2;
 
 struct Out {
     b: Vec<u8>,
@@ -52,6 +69,13 @@ impl Out {
         let o = self.b.len() as u32;
         self.b.extend_from_slice(d);
         o
+    }
+    fn arr_tail(&mut self, d: &Option<Vec<u8>>, elem: usize, tail: Option<&Vec<u8>>) -> (u32, u32) {
+        let r = self.arr(d, elem);
+        if let (true, Some(t)) = (r.0 > 0, tail) {
+            self.b.extend_from_slice(t);
+        }
+        r
     }
     fn arr(&mut self, d: &Option<Vec<u8>>, elem: usize) -> (u32, u32) {
         match d {
@@ -158,6 +182,7 @@ pub fn make_seed(version: u32, sections: &[&'static str], n: usize, k: usize, va
                     // record 2 re-uses record 0's timestamps of the first animated value
                     let t = recs[0][0].times.clone();
                     recs[2][0].times = t;
+                    s.alias.insert((sec, 2, 0, TIMES), (0, 0, TIMES));
                 }
                 s.tracks.insert(sec, recs);
             }
@@ -247,17 +272,54 @@ fn fixed_fields(sec: &str, i: usize, version: u32) -> (Vec<u8>, Vec<u8>) {
     (a, z)
 }
 
-fn track_bytes(o: &mut Out, t: &TrackData, with_ranges: bool, vsize: usize, shared_times: Option<(u32, u32)>) -> (Vec<u8>, (u32, u32)) {
+/// (position inside the record, element size) of the plain sub-arrays of an emitter record
+pub fn subarray_slots(sec: &str) -> &'static [(usize, usize)] {
+    match sec {
+        "ribbon_emitters" => &[(16, 2), (24, 2)],   // texture indices, material indices
+        "particle_emitters" => &[(24, 1), (40, 8)], // geometry model file name, tile coordinates
+        _ => &[],
+    }
+}
+
+fn patch_subarrays(o: &mut Out, sec: &str, rec: &mut [u8], subs: &[Vec<u8>]) {
+    for ((pos, elem), d) in subarray_slots(sec).iter().zip(subs.iter()) {
+        let (c, f) = o.arr(&Some(d.clone()), *elem);
+        rec[*pos..*pos + 4].copy_from_slice(&c.to_le_bytes());
+        rec[*pos + 4..*pos + 8].copy_from_slice(&f.to_le_bytes());
+    }
+}
+
+/// (count, offset) of the three arrays of one animated value; `pre[kind]`: the array is shared
+/// with one that is already placed (the count is the member's own)
+fn track_bytes(o: &mut Out, t: &TrackData, with_ranges: bool, vsize: usize, pre: [Option<u32>; 3], tail: [Option<&Vec<u8>>; 3]) -> (Vec<u8>, [(u32, u32); 3]) {
     let mut v = vec![];
     p16(&mut v, t.interp);
     p16(&mut v, t.gseq);
-    // payload order inside one value: values, then times, then ranges (the crate writes the reverse)
-    let va = o.arr(&t.values, vsize);
-    let ta = match shared_times {
-        Some(x) => x,
-        None => o.arr(&t.times, 4),
+    let shared = |d: &Option<Vec<u8>>, elem: usize, off: u32| -> (u32, u32) {
+        let n = d.as_ref().map(|x| x.len() / elem).unwrap_or(0) as u32;
+        if n == 0 {
+            (0, 0)
+        } else {
+            (n, off)
+        }
     };
-    let ra = if with_ranges { o.arr(&t.ranges, 8) } else { (0, 0) };
+    // payload order inside one value: values, then times, then ranges (the crate writes the reverse)
+    let va = match pre[VALUES as usize] {
+        Some(off) => shared(&t.values, vsize, off),
+        None => o.arr_tail(&t.values, vsize, tail[VALUES as usize]),
+    };
+    let ta = match pre[TIMES as usize] {
+        Some(off) => shared(&t.times, 4, off),
+        None => o.arr_tail(&t.times, 4, tail[TIMES as usize]),
+    };
+    let ra = if with_ranges {
+        match pre[RANGES as usize] {
+            Some(off) => shared(&t.ranges, 8, off),
+            None => o.arr_tail(&t.ranges, 8, tail[RANGES as usize]),
+        }
+    } else {
+        (0, 0)
+    };
     if with_ranges {
         p32(&mut v, ra.0);
         p32(&mut v, ra.1);
@@ -266,7 +328,7 @@ fn track_bytes(o: &mut Out, t: &TrackData, with_ranges: bool, vsize: usize, shar
     p32(&mut v, ta.1);
     p32(&mut v, va.0);
     p32(&mut v, va.1);
-    (v, ta)
+    (v, [ra, ta, va])
 }
 
 pub fn emit(s: &Seed) -> Vec<u8> {
@@ -282,9 +344,13 @@ pub fn emit(s: &Seed) -> Vec<u8> {
         let slots = walker::track_slots(sec, s.version);
         let with_ranges = sec != "bones" || s.version < 264;
         let mut all = vec![];
-        let mut first_times: Option<(u32, u32)> = None;
+        // where every array of this section was placed: (record, value, kind) -> offset
+        let mut placed: BTreeMap<(usize, usize, u8), u32> = BTreeMap::new();
         for (i, r) in recs.iter().enumerate() {
             let (mut rec, tail) = fixed_fields(sec, i, s.version);
+            if let Some(subs) = s.subarrays.get(&(sec, i)) {
+                patch_subarrays(&mut o, sec, &mut rec, subs);
+            }
             if sec == "cameras" {
                 p32(&mut rec, i as u32 % 2);
                 pf(&mut rec, 0.8726646);
@@ -292,10 +358,18 @@ pub fn emit(s: &Seed) -> Vec<u8> {
                 pf(&mut rec, 0.1);
             }
             for (j, t) in r.iter().enumerate() {
-                let shared = if s.share && i == 2 && j == 0 && recs.len() >= 3 && t.times.as_ref().map(|x| !x.is_empty()).unwrap_or(false) { first_times } else { None };
-                let (tb, ta) = track_bytes(&mut o, t, with_ranges, slots[j].1, shared);
-                if i == 0 && j == 0 {
-                    first_times = Some(ta);
+                let mut pre = [None; 3];
+                for kind in [RANGES, TIMES, VALUES] {
+                    if let Some(src) = s.alias.get(&(sec, i, j, kind)) {
+                        pre[kind as usize] = Some(*placed.get(src).expect("alias source must be placed (and non-empty) before its member"));
+                    }
+                }
+                let tail = [s.tail.get(&(sec, i, j, RANGES)), s.tail.get(&(sec, i, j, TIMES)), s.tail.get(&(sec, i, j, VALUES))];
+                let (tb, at) = track_bytes(&mut o, t, with_ranges, slots[j].1, pre, tail);
+                for kind in [RANGES, TIMES, VALUES] {
+                    if at[kind as usize].0 > 0 {
+                        placed.insert((i, j, kind), at[kind as usize].1);
+                    }
                 }
                 rec.extend_from_slice(&tb);
                 if sec == "cameras" && j < 2 {
@@ -318,9 +392,22 @@ pub fn emit(s: &Seed) -> Vec<u8> {
     }
     if !s.events.is_empty() {
         let mut all = vec![];
+        let mut placed: BTreeMap<(usize, usize, u8), u32> = BTreeMap::new();
         for (i, (ranges, times)) in s.events.iter().enumerate() {
-            let ta = o.arr(&Some(times.clone()), 4);
-            let ra = o.arr(&Some(ranges.clone()), 8);
+            let ta = match s.alias.get(&("events", i, 0, TIMES)) {
+                Some(src) if !times.is_empty() => ((times.len() / 4) as u32, placed[src]),
+                _ => o.arr_tail(&Some(times.clone()), 4, s.tail.get(&("events", i, 0, TIMES))),
+            };
+            let ra = match s.alias.get(&("events", i, 0, RANGES)) {
+                Some(src) if !ranges.is_empty() => ((ranges.len() / 8) as u32, placed[src]),
+                _ => o.arr_tail(&Some(ranges.clone()), 8, s.tail.get(&("events", i, 0, RANGES))),
+            };
+            if ta.0 > 0 {
+                placed.insert((i, 0, TIMES), ta.1);
+            }
+            if ra.0 > 0 {
+                placed.insert((i, 0, RANGES), ra.1);
+            }
             let mut rec = vec![];
             rec.extend_from_slice(&[b'$', b'E', b'V', b'0' + i as u8]);
             p32(&mut rec, 500 + i as u32);
